@@ -93,7 +93,10 @@ BuildStep(k, rec, b, ly, s) ==
      ELSE BuildOk(k, rec, b, ly, s)
   ELSE IF rec.out.kind = "Err" THEN
      (IF Require(ExpectedOutcome(b) = rec.out.why, k, rec, "C05", "error outcome") THEN s ELSE s)
-  ELSE (IF Require(FALSE, k, rec, "C10", rec.out.kind) /\ Require(FALSE, k, rec, "C05", "no Ok / documented error outcome: " \o rec.out.kind)
+  ELSE (IF /\ Require(FALSE, k, rec, "C10", rec.out.kind) /\ Require(FALSE, k, rec, "C05", "no Ok / documented error outcome: " \o rec.out.kind)
+           \* automatic mode crashed although the same input builds (or fails as documented) with the most compact mode forced: the mode choice rejected the input
+           /\ Require(~("forced_kinds" \in DOMAIN rec /\ b.mode < 0 /\ rec.forced_kinds[BestMode(b.input) + 1] \in {"Ok", "EncodedData", "SpecifiedVersion"}),
+                       k, rec, "C09", "automatic mode choice rejects the input: the build crashes but succeeds with the most compact mode forced")
         THEN s ELSE s)     \* Panic / Timeout match no action (C10: building is total; C05: no length ever produces a panic)
 
 (* ---------------- Corrupt: environment action on a built symbol, then Recover (C02 corollary) ---------------- *)
